@@ -120,3 +120,30 @@ Proof.
   split; [vm_compute; reflexivity|]. split; [rewrite <- A; vm_compute; reflexivity|]. split; [apply C|].
   destruct (D (rPlus_inj _)) as (D1 & _). rewrite D1. vm_compute. reflexivity.
 Qed.
+
+(** the cache after the history of ex_history (proof/C07_Examples.v): only keys of the two filtering engines, growing query by query;
+    isomorphic and get_mappings agree on the equal-sized pair C-O / O-C *)
+From SK Require Import proof.C07_Cache.
+Example ex_cache_keys_engines : forall k, In k (keys (end_cache has_mono (monos_g true) gsA [eFull; eElem] histQ [])) ->
+  key_of_filtering_engine [eFull; eElem] k.
+Proof. apply end_cache_keys. apply keys_nil. Qed.
+Example ex_cache_trace : cache_trace has_mono (monos_g true) gsA [eFull; eElem] (firstn 2 histQ) [] =
+  [[(0%nat, [1; 2]%N); (2%nat, [1; 2]%N)]; [(0%nat, [1]%N); (2%nat, [1]%N); (0%nat, [1; 2]%N); (2%nat, [1; 2]%N)]].
+Proof. vm_compute. reflexivity. Qed.
+Example ex_iso_maps_consistent :
+  fst (isomorphic has_mono eFull 0 (gnth gsA 0) 1 (gnth gsA 1) []) = true /\
+  fst (get_mappings has_mono (monos_g true) eFull 0 (gnth gsA 0) 1 (gnth gsA 1) []) <> [].
+Proof.
+  assert (A : fst (isomorphic has_mono eFull 0 (gnth gsA 0) 1 (gnth gsA 1) []) = true) by (vm_compute; reflexivity).
+  split; [exact A|].
+  apply (iso_maps_consistent has_mono (monos_g true) has_mono_contract monos_g_contract gsA eFull 0 1 [] [] (cache_inv_nil gsA) (cache_inv_nil gsA)
+           (wfA 0 ltac:(lia)) (wfA 1 ltac:(lia))); [reflexivity | discriminate | exact A].
+Qed.
+
+(** isomorphic is reflexive and transitive: C-O ~ O-C (a relabelled copy) ~ C-O gives C-O ~ C-O, whatever the caches hold *)
+Example ex_iso_preorder : fst (isomorphic has_mono eFull 0 (gnth gsA 0) 0 (gnth gsA 0) []) = true.
+Proof.
+  destruct (iso_preorder has_mono has_mono_contract gsA eFull) as (_ & T).
+  apply (T 0%nat 1%nat 0%nat [] [] [] (cache_inv_nil gsA) (cache_inv_nil gsA) (cache_inv_nil gsA) (wfA 0 ltac:(lia)) (wfA 1 ltac:(lia)) (wfA 0 ltac:(lia)));
+    vm_compute; reflexivity.
+Qed.
